@@ -152,4 +152,63 @@ theorem dispatch_mov_mem (c : Model.X86.Ctx) (row : Row) (k : RegKind) (i : Nat)
   rcases hk with h | h | h <;> subst h <;> constructor <;>
     simp [dispatch, henc, sig3, Op.kind, Op.id, Op.rmSize, Op.isGp, rtypeOf, kindSize, hm']
 
+/-! ### class X86Lea -/
+
+def finalOpLea (e : Entry) : BitVec 32 := addPrefixBySize e.mainOp (kindSize (e.kinds.getD 0 .none))
+
+/-- the form operand accepts a memory operand of any size -/
+def memAnyAlt (f : FormOp) : Bool := f.alts.any fun a => match a with | .mem Option.none .none => true | _ => false
+
+theorem memAnyAlt_matches (osz : Nat) (f : FormOp) (m : MemOp) (h : memAnyAlt f = true) (hvs : vsibOf m = .none) :
+    formOpMatches osz f (.mem m) = true := by
+  unfold memAnyAlt at h
+  unfold formOpMatches
+  rw [List.any_eq_true] at h ⊢
+  obtain ⟨a, ha, hm⟩ := h
+  refine ⟨a, ha, ?_⟩
+  cases a with
+  | mem s vs =>
+    cases s with
+    | some s' => simp at hm
+    | none =>
+      cases vs <;> simp at hm
+      simp [altMatches, hvs]
+  | _ => simp at hm
+
+def entryOkLea (e : Entry) : Bool :=
+  match e.rule.ops, e.kinds with
+  | [f0, f1], [k0] =>
+    e.enc == 0x2B && (legCoreA e (finalOpLea e) &&
+    (f0.role == .reg && (f1.role == .rm && (memAnyAlt f1 && (plainKind k0 && (noFix f0 && formOpMatches e.rule.oszEff f0 (.reg k0 0)))))))
+  | _, _ => false
+
+theorem lea_entries_ok : lleaChunks.all (fun c => c.all entryOkLea) = true := by decide +kernel
+
+/-- **front_cls_correct, class X86Lea, `lea reg, MEM`** (16 / 32 / 64-bit destination, any `AddrFormL` address form) -/
+theorem front_cls_correct_lea (e : Entry) (ch : List Entry) (hch : ch ∈ lleaChunks) (he : e ∈ ch)
+    (c : Model.X86.Ctx) (ctx : Spec.X86.Ctx) (r0 xb : BitVec 32) (m : Mem) (mo : MemOp) (pfx : List (BitVec 8))
+    (mb : BitVec 32 → BitVec 8) (sib : Option (BitVec 8)) (ds : List (BitVec 8))
+    (AF : AddrFormL c ctx m mo pfx xb mb sib ds) (hm64 : ctx.mode64 = true) (h0 : r0 < 16#32) :
+    ∃ bytes k0, e.kinds = [k0] ∧ emitX86M c (finalOpLea e) 0#32 r0 m 0 0 = .ok bytes ∧
+      formOk ctx e.rule [.reg k0 r0.toNat, .mem mo] {} bytes = true := by
+  have hok := mem_chunks_ok lea_entries_ok e ch hch he
+  unfold entryOkLea at hok
+  split at hok
+  · rename_i f0 f1 k0 hops hkinds
+    simp only [Bool.and_eq_true, beq_iff_eq] at hok
+    obtain ⟨-, hC, ra, rb, hma, p0, n0, m0⟩ := hok
+    obtain ⟨R, hmode, A, hmask⟩ := legCoreA_spec _ _ hC
+    have hal : alignOps e.rule.oszEff e.rule.ops [.reg k0 r0.toNat, .mem mo] = some [(f0, some (.reg k0 r0.toNat)), (f1, some (.mem mo))] := by
+      rw [hops]
+      exact alignOps2 _ _ _ _ _ (by rw [formOpMatches_reg_nofix _ _ _ _ n0]; exact m0) (memAnyAlt_matches _ _ _ hma AF.hvsib)
+    obtain ⟨bytes, hb, hf⟩ := legM_rm_formOk c ctx e.rule (finalOpLea e) r0 xb m mo pfx mb sib ds AF k0 f0 f1 hm64 hmode hmask h0
+      (plainKind_spec _ p0) R A ra rb hal
+    exact ⟨bytes, k0, hkinds, hb, hf⟩
+  · simp at hok
+
+theorem dispatch_lea (c : Model.X86.Ctx) (row : Row) (k : RegKind) (i : Nat) (m : Mem) (henc : row.encoding = 0x2b)
+    (hk : k = .gpw ∨ k = .gpd ∨ k = .gpq) :
+    dispatch c row 0#32 (.reg (rtypeOf k) i) (.mem m) .none .none = emitX86M c (addPrefixBySize row.mainOp (kindSize k)) 0#32 (r32 i) m 0 0 := by
+  rcases hk with h | h | h <;> subst h <;> simp [dispatch, henc, sig3, Op.kind, Op.id, Op.rmSize, rtypeOf, kindSize]
+
 end AsmjitVerif.Props.C01
